@@ -61,6 +61,9 @@ TRACE = None
 _LAZY_FRAMES = []
 # (function, positional arguments incl. the receiver) of every interpreted call while a rule asked for it (R04.4)
 CALL_LOG = None
+# statements executed while some local array of the frame carries pending signs (rules/sem_lazy.py asks for it on the synchronised twin:
+# pending signs seen there were produced inside the operation, not inherited from the operand)
+LAZY_AT = None
 
 
 class _OsStub:
@@ -203,6 +206,8 @@ class Evaluator:
         if TRACE is not None:
             for fq in _LAZY_FRAMES:
                 TRACE.add((fq, fi.module.relpath, s.lineno))
+        if LAZY_AT is not None and any(isinstance(v, Obj) and v.fields.get("_phases") for v in env.values()):
+            LAZY_AT.add((fi.module.relpath, s.lineno))
         self.steps += 1
         if self.steps > self.max_steps:
             raise Unsupported("step budget exceeded")
